@@ -1278,7 +1278,7 @@ def bind_args(call: ast.Call, f: FuncInfo, bound_method: bool | None = None) -> 
     if bound_method is None:
         bound_method = bool(f.is_method and not f.is_static and pos[:1] in (["self"], ["cls"]) and isinstance(call.func, ast.Attribute))
         # Class(...) -> __init__: self is implicit as well
-        if f.name == "__init__" and pos[:1] == ["self"]:
+        if f.name in ("__init__", "__call__") and pos[:1] == ["self"]:
             bound_method = True
     if bound_method and pos:
         pos = pos[1:]
